@@ -20,7 +20,7 @@ RULE = (
     "distinct = distinct (structure, call sequence)."
 )
 ASSUMPTIONS = [
-    "call sequences up to 6 (quick) / 8 (thorough) steps",
+    "call sequences up to 6 (quick) / 10 (thorough) steps",
     "dot_bracket answers that differ from the fresh object's but are lossless with the same score are counted as solver ties, not violations (none observed)",
     "trusted: Hypothesis stateful engine, rnaverif/ssref.py",
 ]
@@ -190,7 +190,7 @@ def replay(case):
 def plan(tier, seed):
     if tier == "quick":
         return [{"kind": "machine", "examples": 100, "steps": 6, "seed": seed * 1000 + k} for k in range(16)]
-    return [{"kind": "machine", "examples": 350, "steps": 8, "seed": seed * 1000 + k} for k in range(16)]
+    return [{"kind": "machine", "examples": 1000, "steps": 10, "seed": seed * 1000 + k} for k in range(16)]
 
 
 def run_shard(spec) -> ShardResult:
